@@ -141,11 +141,20 @@ def h_1d(ctx, nl, nr, refine=0, fa=False, fv=True, reuse=False):
                   info=dict(info, state=k), replay=rp)
 
 
-def h_bsta1d(ctx, nl, nr, fa=False, lam_value=1):
-    """adapted binary search tree (1-d): the u-measure of every state equals rate/intensity (C02 at chain level)"""
+def h_bsta1d(ctx, nl, nr, fa=False, lam_value=1, history=False, prefix="C01"):
+    """adapted binary search tree (1-d): the u-measure of every state equals rate/intensity (C02 at chain level).
+    history: another chain (another model, same grid) was built and sampled from earlier in the same interpreter"""
     axis, h, pivot = sym_axis(ctx, nl, nr)
     axis0 = list(axis)
     grid = make_grid(h, pivot, [axis])
+    if history:
+        earlier = A.abs_levy_model(ctx, "mu", sigma=0.0, a=0.0, finite_activity=fa, finite_variation=True)
+        try:
+            pe = MC.MarkovChainProcess(earlier, SamplingMethod.BINARYSEARCHTREEADAPTED1D, grid)
+            ctx.assume(EQ(pe.intensity_of_jumps, 2))
+            pe.sampling.sample_with_u(ctx.real("u_earlier", 0, 1, hi_strict=True))
+        except ZeroDivisionError:
+            raise PathAbort()
     model = A.abs_levy_model(ctx, "nu", sigma=0.0, a=0.0, finite_activity=fa, finite_variation=True)
     nu = model.levy_triplet.nu
     try:
@@ -163,22 +172,24 @@ def h_bsta1d(ctx, nl, nr, fa=False, lam_value=1):
 
     def one():
         s = copy.copy(smp)
-        BSTA.BinarySearchTreeAdapted1D._compute_probability.cache_clear()
+        clear = getattr(BSTA.BinarySearchTreeAdapted1D._compute_probability, "cache_clear", None)
+        if clear is not None:
+            clear()
         return int(s.sample_with_u(u))
 
     leaves = ctx.enumerate(one)
     rp = (replay_bsta1d, scen_1d(ctx, nl, nr, 0, axis0))
     for cons, val, exc in leaves:
         if exc is not None:
-            ctx.prove("C01.adapted_tree_1d.sampling_does_not_raise", False, info={"raised": repr(exc)[:200]}, replay=rp)
+            ctx.prove(f"{prefix}.adapted_tree_1d.sampling_does_not_raise", False, info={"raised": repr(exc)[:200]}, replay=rp)
             return
     meas = M.state_measures(leaves, V.to_term(u))
     for k, (lo, hi) in cs.items():
         want = cell_mass_term(nu, k, piv, lo, hi)
         got = meas.get(k - piv, z3.RealVal(0))
-        ctx.prove("C01.adapted_tree_1d.measure_times_intensity_is_cell_mass", SymBool(got * V.term_of(lam) == want), info={"state": k}, replay=rp)
+        ctx.prove(f"{prefix}.adapted_tree_1d.measure_times_intensity_is_cell_mass", SymBool(got * V.term_of(lam) == want), info={"state": k, "history": history}, replay=rp)
     other = [v for k, v in meas.items() if not (isinstance(k, int) and (k + piv) in cs)]
-    ctx.prove("C01.adapted_tree_1d.never_origin_or_outside", SymBool(z3.And(*[o == 0 for o in other])) if other else True, replay=rp)
+    ctx.prove(f"{prefix}.adapted_tree_1d.never_origin_or_outside", SymBool(z3.And(*[o == 0 for o in other])) if other else True, replay=rp)
 
 
 def h_factory_vector(ctx, nl, nr, method, lam_value=1):
@@ -271,6 +282,12 @@ def replay_bsta1d(sc):
         axis = _canon_axis(nl, nr, vals)
         for name, model in concrete_models().items():
             grid = GS.CTMCGrid(h=float(axis[nl + 1]), origin_coordinate=nl, axes=[axis.copy()])
+            # history: a chain of another model on the same grid was built and sampled from before
+            for other_name, other in concrete_models().items():
+                if other_name != name:
+                    pe = MC.MarkovChainProcess(other, SamplingMethod.BINARYSEARCHTREEADAPTED1D, grid)
+                    for j in range(64):
+                        pe.sampling.sample_with_u((j + 0.5) / 64)
             proc = MC.MarkovChainProcess(model, SamplingMethod.BINARYSEARCHTREEADAPTED1D, grid)
             ax, piv = grid.axes[0], grid.origin_coordinate.value
             n = 20000
@@ -592,6 +609,7 @@ def harnesses(tier):
     for nl, nr in ([(1, 2), (2, 2)] if q else [(1, 2), (2, 1), (2, 2), (3, 2), (3, 3)]):
         for lv in (1, Fraction(3, 2)):
             hs.append(Harness(f"bsta1d.{nl}.{nr}.lam{lv}", h_bsta1d, {"nl": nl, "nr": nr, "lam_value": lv}, max_paths=4000))
+    hs.append(Harness("bsta1d.2.2.after_another_chain", h_bsta1d, {"nl": 2, "nr": 2, "lam_value": 1, "history": True}, max_paths=4000))
     for nl, nr, method in ([(1, 1, "BINARYSEARCHTREE"), (2, 1, "BINARYSEARCHTREE"), (1, 1, "ALIAS")] if q else
                            [(1, 1, "BINARYSEARCHTREE"), (2, 1, "BINARYSEARCHTREE"), (2, 2, "BINARYSEARCHTREE"), (1, 1, "ALIAS"), (1, 2, "ALIAS")]):
         hs.append(Harness(f"factory.{method}.{nl}.{nr}", h_factory_vector, {"nl": nl, "nr": nr, "method": method}, max_paths=6000))
